@@ -896,6 +896,10 @@ class HookEval:
                 return not emp
             if v[0] == "cls" and any(d.required for d in self.sh.decl(v[1]).values()):
                 return True
+            if v[0] in ("cls", "map"):
+                # truthiness of an object none of whose members is required: `{}` is false, `{"anything": 1}` is true --
+                # the test counts keys, undeclared ones included (reported under C15)
+                self.iterated_mapping.append(f"truthiness of a mapping ({show(v)}) at line {getattr(node, 'lineno', '?')}")
             if len(ks) > 1:
                 return self._fork_any(w, p, v)
             return self._fork_bool()
